@@ -71,6 +71,11 @@ def gen_case(seed: int, tier: str, index: int) -> Dict[str, Any]:
         cfg["world"] = "T"
         cfg["snapshot"] = snapshot_files()[rng.randrange(len(snapshot_files()))].split("/")[-1]
         cfg["tables"] = {"idle": {"PING_FREQUENCY_IN_SECONDS": rng.choice([1, 2]), "FACADE_UPDATE_FREQUENCY_IN_SECONDS": rng.choice([2, 5])}}
+        # the user's thread issues commands while the ping thread, the facade's update thread and the socket engine draw numbers of their own:
+        # line-level pre-emption inside the blocking spa object (spa.py), so that the other threads run between any two lines of a command
+        cfg["sched"] = {"preempt_p": rng.choice([0.0, 0.1, 0.3, 0.6]), "preempt_files": ["/spa.py"], "cost_p": 0.1, "cost_max": 0.002,
+                        # now and then the pre-empted thread stays off the processor long enough for the other threads' timers to come due
+                        "preempt_stall_p": rng.choice([0.0, 0.02, 0.1]), "preempt_stall_max": rng.choice([0.5, 2.5])}
         if rng.random() < 0.6:
             # lossy run with the protocol counter advanced to just below its wrap: retransmissions of the requests numbered 189..191, 1..
             cfg["lossy"] = True
@@ -318,10 +323,13 @@ def wire_sync(world: WorldT) -> None:
         sim.set_snapshot(load_snapshot(os.path.join(repo_root(), "tests", "snapshots", cfg["snapshot"])))
         sim.do_start("")
     desc = GeckoSpaDescriptor(b"IOSverif-T", b"SPA01:02:03:04:05:06", "Udp Test Spa", (SPA_IP, SPA_PORT))
+    # (pre-emption and descheduling start once the connection stands: this scenario is about the traffic of a connected spa)
+    preempt_p, world.sched.preempt_p = world.sched.preempt_p, 0.0
     facade = desc.get_facade(False)
     if not world.wait_until(lambda: facade.is_connected, 44):
         raise HarnessError("blocking facade did not connect on a benign network")
     world.sleep(1.0)
+    world.sched.preempt_p = preempt_p
     lossy = bool(cfg.get("lossy"))
     if lossy:
         # more requests have been made on this connection (numbers drawn through the counter's own entry point), then the network gets lossy
